@@ -410,6 +410,7 @@ package common
 //@ func ActiveIndices(indicesBounded, epoch) out
 //@   property C07
 //@   ensures count: len(out) == act_count(indicesBounded, epoch, len(indicesBounded))
+//@   ensures bounded: len(out) <= len(indicesBounded)
 //@   ensures members: forall i :: {indicesBounded[i]} 0 <= i && i < len(indicesBounded) && is_active(indicesBounded[i], epoch) ==> out[act_count(indicesBounded, epoch, i)] == indicesBounded[i].Index
 //@   loop 1
 //@     invariant len(out) == act_count(indicesBounded, epoch, rangeindex + 1) && len(out) <= rangeindex + 1
@@ -657,6 +658,48 @@ package common
 //@   ensures len: len(input) == old(len(input))
 //@   ensures unshuffled: len(input) > 1 && rounds > 0 ==> (forall x :: {input[x]} 0 <= x && x < len(input) ==> input[x] == old(input)[sh_fwd(seed, len(input), x, rounds)])
 //@   ensures trivial: len(input) <= 1 || rounds == 0 ==> (forall x :: {input[x]} 0 <= x && x < len(input) ==> input[x] == old(input)[x])
+
+
+// ---------------------------------------------------------------- committees of an epoch (C07)
+// compute_committee: committee number idx of cc (= committees per slot * SLOTS_PER_EPOCH) covers positions
+// [n*idx/cc, n*(idx+1)/cc) of the shuffled active set; shuffled[x] == active[compute_shuffled_index(x)].
+// Products go through mulw (= *) so that the monotonicity lemma below can be triggered on them.
+//@ ufun mulw(int, int) int
+//@ axiom mulw_def: forall a int, b int :: {mulw(a, b)} mulw(a, b) == a * b
+//@ lemma mulw_mono [C07]: forall a int, b int, c int :: {mulw(a, b), mulw(a, c)} 0 <= a && 0 <= b && b <= c ==> mulw(a, b) <= mulw(a, c)
+//@ lemma div_mono [C07]: forall x int, y int, d int :: {x / d, y / d} 0 <= x && x <= y && 0 < d ==> x / d <= y / d
+//@ lemma div_exact [C07]: forall a int, d int :: {mulw(a, d) / d} 0 <= a && 0 < d ==> mulw(a, d) / d == a
+//@ define cm_per_slot(spec SpecP, n int) int = max(1, min(spec.MAX_COMMITTEES_PER_SLOT, n / spec.SLOTS_PER_EPOCH / spec.TARGET_COMMITTEE_SIZE))
+//@ define cm_start(n int, idx int, cc int) int = mulw(n, idx) / cc
+//@ func NewShufflingEpoch(spec, indicesBounded, seed, epoch) shep
+//@   property C07
+//@   nooverflow
+//@   use div_mono, sh_fwd_range
+//@   requires spec != nil && 0 < spec.SLOTS_PER_EPOCH && spec.SLOTS_PER_EPOCH <= 1024 && 0 < spec.TARGET_COMMITTEE_SIZE && spec.MAX_COMMITTEES_PER_SLOT <= 1024 && len(indicesBounded) <= 1099511627776
+//@   ensures shep != nil && shep.Epoch == epoch
+//@   ensures active_count: len(shep.ActiveIndices) == act_count(indicesBounded, epoch, len(indicesBounded))
+//@   ensures active_members: forall i :: {indicesBounded[i]} 0 <= i && i < len(indicesBounded) && is_active(indicesBounded[i], epoch) ==> shep.ActiveIndices[act_count(indicesBounded, epoch, i)] == indicesBounded[i].Index
+//@   ensures shuffled: len(shep.Shuffling) == len(shep.ActiveIndices) && (len(shep.Shuffling) > 1 && spec.SHUFFLE_ROUND_COUNT % 256 > 0 ==> (forall x :: {shep.Shuffling[x]} 0 <= x && x < len(shep.Shuffling) ==> shep.Shuffling[x] == shep.ActiveIndices[sh_fwd(seed, len(shep.Shuffling), x, spec.SHUFFLE_ROUND_COUNT % 256)]))
+//@   ensures tables: len(shep.Committees) == spec.SLOTS_PER_EPOCH && (forall s :: {shep.Committees[s]} 0 <= s && s < spec.SLOTS_PER_EPOCH ==> len(shep.Committees[s]) == cm_per_slot(spec, len(shep.Shuffling)))
+//@   ensures slices: (let n := len(shep.Shuffling) in let cps := cm_per_slot(spec, n) in let cc := cps * spec.SLOTS_PER_EPOCH in forall s, c :: {shep.Committees[s][c]} 0 <= s && s < spec.SLOTS_PER_EPOCH && 0 <= c && c < cps ==> len(shep.Committees[s][c]) == cm_start(n, mulw(s, cps) + c + 1, cc) - cm_start(n, mulw(s, cps) + c, cc) && (forall k :: {shep.Committees[s][c][k]} 0 <= k && k < len(shep.Committees[s][c]) ==> shep.Committees[s][c][k] == shep.Shuffling[cm_start(n, mulw(s, cps) + c, cc) + k]))
+//@   after =endOffset@1 idx: index == mulw(slot, committeesPerSlot) + slotIndex && index + 1 <= committeeCount && 0 < committeeCount
+//@   after =endOffset@1 defs: startOffset == cm_start(validatorCount, index, committeeCount) && endOffset == cm_start(validatorCount, index + 1, committeeCount)
+//@   after =endOffset@1 exact: mulw(validatorCount, committeeCount) / committeeCount == validatorCount
+//@   after =endOffset@1 order: startOffset <= endOffset
+//@   after =endOffset@1 top: endOffset <= validatorCount
+//@   ensures cover: (let n := len(shep.Shuffling) in let cc := cm_per_slot(spec, n) * spec.SLOTS_PER_EPOCH in cm_start(n, 0, cc) == 0 && cm_start(n, cc, cc) == n)
+//@   loop 2
+//@     invariant basics: slot <= spec.SLOTS_PER_EPOCH && len(shep.Committees) == spec.SLOTS_PER_EPOCH && validatorCount == len(shep.Shuffling) && committeesPerSlot == cm_per_slot(spec, validatorCount) && committeeCount == committeesPerSlot * spec.SLOTS_PER_EPOCH && 1 <= committeesPerSlot && committeesPerSlot <= 1024
+//@     invariant counts: forall s :: {shep.Committees[s]} 0 <= s && s < slot ==> len(shep.Committees[s]) == committeesPerSlot
+//@     invariant slices: forall s, c :: {shep.Committees[s][c]} 0 <= s && s < slot && 0 <= c && c < committeesPerSlot ==> len(shep.Committees[s][c]) == cm_start(validatorCount, mulw(s, committeesPerSlot) + c + 1, committeeCount) - cm_start(validatorCount, mulw(s, committeesPerSlot) + c, committeeCount) && (forall k :: {shep.Committees[s][c][k]} 0 <= k && k < len(shep.Committees[s][c]) ==> shep.Committees[s][c][k] == shep.Shuffling[cm_start(validatorCount, mulw(s, committeesPerSlot) + c, committeeCount) + k])
+//@   loop 3
+//@     invariant basics: slot < spec.SLOTS_PER_EPOCH && len(shep.Committees) == spec.SLOTS_PER_EPOCH && validatorCount == len(shep.Shuffling) && committeesPerSlot == cm_per_slot(spec, validatorCount) && committeeCount == committeesPerSlot * spec.SLOTS_PER_EPOCH && 1 <= committeesPerSlot && committeesPerSlot <= 1024 && slotIndex <= committeesPerSlot && len(shep.Committees[slot]) == slotIndex
+//@     invariant counts: forall s :: {shep.Committees[s]} 0 <= s && s < slot ==> len(shep.Committees[s]) == committeesPerSlot
+//@     invariant slices: forall s, c :: {shep.Committees[s][c]} 0 <= s && s < slot && 0 <= c && c < committeesPerSlot ==> len(shep.Committees[s][c]) == cm_start(validatorCount, mulw(s, committeesPerSlot) + c + 1, committeeCount) - cm_start(validatorCount, mulw(s, committeesPerSlot) + c, committeeCount) && (forall k :: {shep.Committees[s][c][k]} 0 <= k && k < len(shep.Committees[s][c]) ==> shep.Committees[s][c][k] == shep.Shuffling[cm_start(validatorCount, mulw(s, committeesPerSlot) + c, committeeCount) + k])
+//@     invariant row: forall c :: {shep.Committees[slot][c]} 0 <= c && c < slotIndex ==> len(shep.Committees[slot][c]) == cm_start(validatorCount, mulw(slot, committeesPerSlot) + c + 1, committeeCount) - cm_start(validatorCount, mulw(slot, committeesPerSlot) + c, committeeCount) && (forall k :: {shep.Committees[slot][c][k]} 0 <= k && k < len(shep.Committees[slot][c]) ==> shep.Committees[slot][c][k] == shep.Shuffling[cm_start(validatorCount, mulw(slot, committeesPerSlot) + c, committeeCount) + k])
+//@   loop 1
+//@     invariant len(shep.Shuffling) == len(shep.ActiveIndices) && len(shep.ActiveIndices) <= len(indicesBounded) && (forall k :: {shep.Shuffling[k]} 0 <= k && k <= rangeindex ==> shep.Shuffling[k] == shep.ActiveIndices[k])
+//@     invariant unchanged_active: len(shep.ActiveIndices) == act_count(indicesBounded, epoch, len(indicesBounded)) && (forall i :: {indicesBounded[i]} 0 <= i && i < len(indicesBounded) && is_active(indicesBounded[i], epoch) ==> shep.ActiveIndices[act_count(indicesBounded, epoch, i)] == indicesBounded[i].Index)
 
 
 // BEGIN C18 generated (tools/gen_c18.py in /verif)
